@@ -54,6 +54,23 @@ def affine(t, var):
     return None
 
 
+def slope(t, var):
+    """Coefficient of ``var`` in t when t is affine in var with a loop-invariant (possibly symbolic) offset, else None."""
+    if t == var:
+        return 1
+    if not any(x == var for x in walk(t)):
+        return 0
+    if t[0] == "binop" and t[1] in ("+", "-"):
+        l, r = slope(t[2], var), slope(t[3], var)
+        if l is None or r is None:
+            return None
+        return l + (r if t[1] == "+" else -r)
+    if t[0] == "unop" and t[1] == "-":
+        x = slope(t[2], var)
+        return None if x is None else -x
+    return None
+
+
 class PSeq:
     """list[i] == elem[lv := i + offset] for i + offset < n, else ``tail``."""
 
@@ -318,10 +335,18 @@ def per_rules(ctx: Ctx):
     for v in lp.next.values():
         for s_ in walk(v):
             if s_[0] == "sub" and s_[1][0] == "param" and s_[1][1] == SOLVE and s_[2][0] != "const":
-                af = affine(s_[2], lp.target)
-                signs.add(af[0] if af is not None and af[0] in (1, -1) else 0)
+                sl = slope(s_[2], lp.target)
+                if sl != 0:  # an index that does not move with the loop says nothing about direction (PER3 judges it)
+                    signs.add(sl if sl in (1, -1) else 2)
     if signs == {-1}:
         backward = not backward
+    elif signs == {1, -1}:
+        # some per-period list is indexed against the others (PER3 reports it); the direction of the induction is the
+        # direction in which the state-choice space, and with it the carried value array, moves
+        c0 = calls_in(tuple(lp.next.values()), "lcm.solve_brute.solve_continuous_problem")
+        r0 = kw(c0[0], "state_choice_space") if c0 else None
+        sl0 = slope(r0[2], lp.target) if r0 is not None and r0[0] == "sub" else None
+        backward = (not backward if sl0 == -1 else backward) if sl0 in (1, -1) else None
     elif signs != {1}:
         backward = None if not backward else backward  # mixed / unrecognised index expressions: no verdict on direction
         if signs - {1}:
@@ -333,6 +358,25 @@ def per_rules(ctx: Ctx):
     n_ok = callee_name(n_term) == "builtins.len" and n_term[2] and n_term[2][0][0] == "param"
     ctx.ob("PER1:solve:n_periods", n_ok if n_ok else None, prog.where(n_term),
            "loop bound is the length of a per-period list" if n_ok else "loop bound not recognised", lhs=n_term)
+    # the loop counts steps and derives the period from them (period = last - i): re-express the iteration in terms of
+    # the period expression, so that the offsets below are offsets to the period that is being solved
+    idx_terms = {s_[2] for v in lp.next.values() for s_ in walk(v)
+                 if s_[0] == "sub" and s_[1][0] == "param" and s_[1][1] == SOLVE and slope(s_[2], lp.target) != 0}
+    orig_lv = lp.target
+    scp0 = calls_in(tuple(lp.next.values()), "lcm.solve_brute.solve_continuous_problem")
+    ref0 = kw(scp0[0], "state_choice_space") if scp0 else None
+    ref_slope = slope(ref0[2], orig_lv) if ref0 is not None and ref0[0] == "sub" else None
+    if ref_slope in (1, -1):
+        # indices running against the state-choice space are judged below (PER3), they do not take part here
+        idx_terms = {i for i in idx_terms if slope(i, lp.target) == ref_slope}
+    if idx_terms and any(affine(i, lp.target) is None for i in idx_terms):
+        cands = [c for c in {x for i in idx_terms for x in walk(i)} if slope(c, lp.target) in (1, -1)
+                 and all(affine(i, c) is not None for i in idx_terms)]
+        if cands:
+            import dataclasses
+            pterm = max(cands, key=lambda c: (sum(1 for _ in walk(c)), repr(c)))
+            pvar = ("loopvar", lp.id, "<period>")
+            lp = dataclasses.replace(lp, target=pvar, next={k: subst(v, {pterm: pvar}) for k, v in lp.next.items()})
     lv = lp.target
     # the continuous problem call of one iteration
     scp = [c for c in calls_in(tuple(lp.next.values()), "lcm.solve_brute.solve_continuous_problem")]
@@ -345,6 +389,8 @@ def per_rules(ctx: Ctx):
            if carried_ok else "vf_arr passed to the continuous problem is not the loop-carried value array "
            "initialised with None", lhs=vf if vf is not None else "missing")
     new_vf = lp.next.get(vf[2]) if carried_ok else None
+    if carried_ok and new_vf is not None and new_vf[0] == "sub" and new_vf[1][0] == "setitem" and new_vf[1][2] == new_vf[2]:
+        new_vf = new_vf[1][3]  # solution[t] = V; next_vf = solution[t]: the value just stored
     if carried_ok:
         # V_t := emax_calculators[t](ccv_t)
         ok = (new_vf[0] == "call" and new_vf[2] and new_vf[2][0] == scp) or scp in set(walk(new_vf))
@@ -357,7 +403,9 @@ def per_rules(ctx: Ctx):
         acc = [s for s in walk(rets) if s[0] == "loopout" and s[1] == lp.id]
         need(acc, "solve does not return a list filled in the period loop")
         acc = acc[0]
-        elem = _append_elem(lp.next.get(acc[2]), ("carried", lp.id, acc[2]))
+        nx_acc = lp.next.get(acc[2])
+        by_index = nx_acc is not None and nx_acc[0] == "setitem" and nx_acc[1] == ("carried", lp.id, acc[2])
+        elem = nx_acc[3] if by_index else _append_elem(nx_acc, ("carried", lp.id, acc[2]))
         ctx.ob("PER5:solve:collects-V", elem == new_vf, prog.where(rets),
                "every period's value array is collected" if elem == new_vf else
                "the collected array is not the period's value array", lhs=elem, rhs=new_vf)
@@ -368,6 +416,14 @@ def per_rules(ctx: Ctx):
         if r[0] == "sub" and r[1] == acc and r[2] == ("slice", None, None, ("unop", "-", ("const", 1))):
             rev = True
         chrono = rev if backward else r == acc
+        if by_index:
+            # one slot per period, filled at the position of the period: chronological whatever the loop direction
+            init = lp.init.get(acc[2])
+            slots = init is not None and init[0] == "binop" and init[1] == "*" and any(
+                x[0] == "list" and x[1] == (("const", None),) for x in (init[2], init[3]))
+            sl = slope(nx_acc[2], lp.target)
+            period_expr_ok = any(s_[0] == "sub" and s_[1][0] == "param" and s_[2] == nx_acc[2] for v in lp.next.values() for s_ in walk(v))
+            chrono = True if (r == acc and slots and sl in (1, -1) and period_expr_ok) else None
         ctx.ob("PER5:solve:chronological", chrono, prog.where(rets),
                "the list collected backwards is reversed before it is returned" if chrono else
                "the solution list is not in chronological order", lhs=rets)
@@ -397,7 +453,38 @@ def per_rules(ctx: Ctx):
         obj = seq.at(("binop", "+", T, ("const", idx[1])) if idx[1] else T)
         return obj, seq, raw, idx[1]
 
+    def fixed_index(key, a, partial_call, owner, lv, what):
+        """``what`` is list[i] with i the same in every iteration: one period's object serves all periods."""
+        if not (a is not None and a[0] == "sub" and a[1][0] == "param" and a[1][1] == owner and slope(a[2], lv) == 0 and slope(a[2], orig_lv) == 0):
+            return False
+        seq, raw = param_seq(partial_call, a[1][2])
+        if seq.const:
+            return False
+        ctx.ob(key, False, prog.where(raw),
+               f"{what}: element {show(a[2])[:60]} of the per-period list is used in every iteration of the period loop, "
+               "although the list holds period-specific objects", lhs=show(a)[:120], rhs="element of the period being solved")
+        return True
+
+    ref_ix = ref0
+
+    def opposite_index(key, a, partial_call, owner, lv, what):
+        """``what`` is list[j] where j runs against the index of the state-choice space of the same iteration."""
+        if not (ref_slope in (1, -1) and a is not None and a[0] == "sub" and a[1][0] == "param" and a[1][1] == owner
+                and slope(a[2], orig_lv) == -ref_slope):
+            return False
+        seq, raw = param_seq(partial_call, a[1][2])
+        if seq.const:
+            return False
+        ctx.ob(key, False, prog.where(raw),
+               f"{what}: indexed by {show(a[2])[:60]}, which runs in the opposite direction to the index of the state-choice "
+               f"space ({show(ref_ix[2])[:60]}): one iteration combines objects of different periods",
+               lhs=show(a)[:120], rhs="element of the period being solved")
+        return True
+
     def check_offset(key, call, kwname, partial_call, owner, lv, want, why):
+        if fixed_index(key, kw(call, kwname), partial_call, owner, lv, kwname) or \
+                opposite_index(key, kw(call, kwname), partial_call, owner, lv, kwname):
+            return None
         obj, seq, raw, k = consumer_period(call, kwname, partial_call, owner, lv)
         if seq.const:
             ctx.ob(key, True, prog.where(raw), f"{kwname}: the same object in every period ({why})",
@@ -432,7 +519,10 @@ def per_rules(ctx: Ctx):
                  "choice grids of period t")
     check_offset("PER2:solve:state_indexers", scp, "state_indexers", sp, SOLVE, lv, 1,
                  "the indexer locates next-period states inside V_{t+1}")
-    if calc is not None and calc[0] == "sub" and calc[1][0] == "param":
+    if calc is not None and (fixed_index("PER3:solve:emax_calculator", calc, sp, SOLVE, lv, "emax calculator")
+                             or opposite_index("PER3:solve:emax_calculator", calc, sp, SOLVE, lv, "emax calculator")):
+        pass
+    elif calc is not None and calc[0] == "sub" and calc[1][0] == "param":
         seq, raw = param_seq(sp, calc[1][2])
         idx = affine(calc[2], lv)
         need(idx is not None and idx[0] == 1, "emax calculator index is not t+k")
@@ -447,6 +537,7 @@ def per_rules(ctx: Ctx):
         ctx.undecided("PER3:solve:emax_calculator", "the emax calculator is not an element of a per-period list")
 
     # space_info inside u_and_f of period t: period t+1
+    need(ccv_obj is not None, "compute_ccv of the period being solved not identified")
     uf = [c for c in walk(ccv_obj) if callee_name(c) == "lcm.model_functions.get_utility_and_feasibility_function"]
     need(uf, "compute_ccv is not built from get_utility_and_feasibility_function")
     uf = uf[0]
